@@ -354,6 +354,37 @@ theorem gnet_idle_never_fires (idle t0 : Nat) (ts : List Nat) (h : Framing.gapsB
     Framing.gnetIdle idle t0 ts = ts.length :=
   Framing.gnetIdle_gaps idle ts t0 t0 (Nat.le_refl _) h
 
+/-- ★ `waiting_client_never_closed` (tcp, DoT, after the fix "a connection with queries in flight is not idle"):
+    for every timing, every behaviour `busy` of the handlers and any scheduling delays, a client that for each
+    query either keeps the pace or — while answers are still outstanding during the whole wait — sends the
+    query in one piece whenever it likes (also after many times the idle timeout) has every query read: the
+    deadline firing with `n == 0` and queries in flight only re-arms. -/
+theorem waiting_client_never_closed (idle : Nat) (hidle : 1 ≤ idle) (busy : Nat → Bool) (lag : Nat → Nat)
+    (t0 : Nat) (arr : List Nat) (h : Framing.pacedB idle busy t0 arr) :
+    Framing.idleLoopB idle busy lag (Framing.fuelFor t0 arr) 0 t0 (arr.map (fun a => (a, a))) = arr.length :=
+  Framing.idleLoopB_pacedB idle hidle busy lag _ arr 0 t0 t0 (Nat.le_refl _) h (Nat.le_refl _)
+
+/-- ★ a partial message still times out (`n > 0`): if some of its octets are there when the deadline passes
+    and the rest is not, the connection is closed, queries in flight or not. -/
+theorem partial_frame_times_out (idle : Nat) (busy : Nat → Bool) (lag : Nat → Nat) (fuel j now p a : Nat)
+    (as : List (Nat × Nat)) (hp : p ≤ now + idle) (ha : now + idle < a) :
+    Framing.idleLoopB idle busy lag (fuel + 1) j now ((p, a) :: as) = 0 :=
+  Framing.idleLoopB_partial idle busy lag fuel j now p a as hp ha
+
+/-- ★ gnet: the timer callback re-arms while queries are in flight, so a connection whose every pause is
+    shorter than `idle` OR covered by outstanding answers is never closed by it. -/
+theorem gnet_waiting_never_closed (idle : Nat) (hidle : 1 ≤ idle) (busy : Nat → Bool) (t0 : Nat) (ts : List Nat)
+    (h : Framing.gapsBelowB idle busy t0 ts) :
+    Framing.gnetIdleB idle busy (Framing.fuelFor t0 ts) t0 ts = ts.length :=
+  Framing.gnetIdleB_gaps idle hidle busy _ ts t0 t0 (Nat.le_refl _) h (Nat.le_refl _)
+
+/-- the harness' slow-upstream script (idle 1000: query 1 at 100, answered at 1400; query 2 in one piece at
+    1600) is inside `pacedB` although 1600 > 100 + 1000; without the `continue` branch (`busy` never true) the
+    second query is lost. -/
+example : Framing.idleLoopB 1000 (fun t => decide (t < 1400)) (fun _ => 0) 10 0 0 [(100, 100), (1600, 1600)] = 2 := by
+  decide
+example : Framing.idleLoopB 1000 (fun _ => false) (fun _ => 0) 10 0 0 [(100, 100), (1600, 1600)] = 1 := by decide
+
 /-- the hypothesis of `idle_never_fires` is about whole messages, and necessarily so: one message whose
     two halves arrive at 600 and 1200 (no pause reaches idle = 1000) is NOT read — the code arms one absolute
     deadline per message. (A legal behaviour of the code; the timed scripts of the harness stay inside `paced`.) -/
@@ -490,6 +521,10 @@ theorem pins :
     Facts.tcpfr_deadlineCount = 1 ∧
     Facts.tcpfr_deadlineBeforeRead = 1 ∧
     Facts.tcpfr_bufferedCount = 0 ∧
+    Facts.tcpfr_busyContinue = "n == 0 && concurrent.Load() > 0 && errors.Is(err, os.ErrDeadlineExceeded)" ∧
+    Facts.gnetfr_timerBusy = "cc.concurrentRequests.Load() > 0" ∧
+    Facts.gnetfr_timerRearm = "cc.idleTimer.Reset(e.idleTimeout)" ∧
+    Facts.gnetfr_timerClose = "c.Close()" ∧
     Facts.tcpfr_idleFromCfg = "idleTimeout := time.Duration(cfg.IdleTimeout) * time.Second" ∧
     Facts.tcpfr_idleDefault = 10000000000 ∧
     Facts.gnetfr_idleReset = "cc.idleTimer.Reset(e.idleTimeout)" ∧
